@@ -273,7 +273,7 @@ class VC:
 
 # ------------------------------------------------------------------ sidecar contract (the part a human writes)
 
-i, j, j2 = Int("i"), Int("j"), Int("j2")
+i, j, j2, j3 = Int("i"), Int("j"), Int("j2"), Int("j3")
 a_, b_, c_, p_ = Int("a"), Int("b"), Int("c"), Int("p")
 from z3 import BoolSort
 B = Function("Below", IntSort(), IntSort(), IntSort(), BoolSort())   # OPAQUE in the loop VCs
@@ -332,17 +332,26 @@ def pre():
 
 
 def chain_facts(L, k):
-    """facts about the list `selected` shared by both invariants; k = number of rows already consumed"""
+    """facts about the list `selected` shared by both invariants; k = number of rows already consumed.
+    Every quantified fact binds ALL indices that occur in Select terms (j2 = j+1, j3 = j+2 are separate bound variables
+    tied by an equation), so that an instance never creates a new trigger term: no matching loops even with relevancy=0."""
     sel, m = L.get, L.n
+    A = L.arr
     return [
         m >= 0, m <= k,
-        ForAll([j], Implies(And(0 <= j, j < m), And(0 <= sel(j), sel(j) < k)), patterns=[Select(L.arr, j)]),       # ids of consumed rows
+        ForAll([j], Implies(And(0 <= j, j < m), And(0 <= sel(j), sel(j) < k)), patterns=[Select(A, j)]),              # ids of consumed rows
         ForAll([j, j2], Implies(And(0 <= j, j < j2, j2 < m), sel(j) < sel(j2)),
-               patterns=[MultiPattern(Select(L.arr, j), Select(L.arr, j2))]),                                       # a subsequence, order kept
-        Implies(m >= 1, sel(0) == 0),                                                                                # first row kept
+               patterns=[MultiPattern(Select(A, j), Select(A, j2))]),                                                  # a subsequence, order kept
+        Implies(m >= 1, sel(0) == 0),                                                                                   # first row kept
+        # strict concavity of consecutive triples
+        ForAll([j, j2, j3], Implies(And(0 <= j, j2 == j + 1, j3 == j + 2, j3 < m), Not(B(sel(j), sel(j3), sel(j2)))),
+               patterns=[MultiPattern(Select(A, j), Select(A, j2), Select(A, j3))]),
+        # abscissae strictly increase from index 1 on (only the first edge may be vertical)
+        ForAll([j, j2], Implies(And(1 <= j, j2 == j + 1, j2 < m), X(sel(j)) < X(sel(j2))),
+               patterns=[MultiPattern(Select(A, j), Select(A, j2))]),
         # coverage: every consumed row lies on/below every chain edge whose x-span contains it
-        ForAll([i, j], Implies(And(0 <= i, i < k, 0 <= j, j + 1 < m, span(sel(j), sel(j + 1), i)),
-                               B(sel(j), sel(j + 1), i)), patterns=[MultiPattern(X(i), Select(L.arr, j))]),
+        ForAll([i, j, j2], Implies(And(0 <= i, i < k, 0 <= j, j2 == j + 1, j2 < m, span(sel(j), sel(j2), i)),
+                                   B(sel(j), sel(j2), i)), patterns=[MultiPattern(X(i), Select(A, j), Select(A, j2))]),
     ]
 
 
@@ -369,6 +378,8 @@ def post(env):
     sel, m = L.get, L.n
     return [m >= 1, sel(0) == 0, sel(m - 1) == N - 1,
             ForAll([j, j2], Implies(And(0 <= j, j < j2, j2 < m), sel(j) < sel(j2))),
+            ForAll([j], Implies(And(0 <= j, j + 2 < m), Not(B(sel(j), sel(j + 2), sel(j + 1))))),
+            ForAll([j], Implies(And(1 <= j, j + 1 < m), X(sel(j)) < X(sel(j + 1)))),
             ForAll([i, j], Implies(And(0 <= i, i < N, 0 <= j, j + 1 < m, span(sel(j), sel(j + 1), i)),
                                    B(sel(j), sel(j + 1), i)))]
 
@@ -411,6 +422,7 @@ def main():
         s.set("timeout", 30000)
         s.set("auto_config", False)
         s.set("smt.mbqi", False)
+        s.set("smt.relevancy", 0)
         s.add(*hyps)
         s.add(Not(goal))
         t = time.time()
